@@ -75,7 +75,7 @@ def arrangements(draw):
     op = draw(st.sampled_from(exprgen.ASSOC))
     n = draw(st.integers(2, 5))
     ops = [draw(exprgen.expr(w, 2)) for _ in range(n)]
-    mode = draw(st.sampled_from(["random", "random", "interacting", "flattening"])) if w >= 8 else "random"
+    mode = draw(st.sampled_from(["random", "random", "interacting", "flattening", "repeats"])) if w >= 8 else "random"
     if mode == "interacting":
         # operands that rewrite rules combine pairwise (a shift and the mask that covers exactly what it leaves, a term and its negation,
         # neutral and absorbing constants): a rule that looks at two operands must not depend on how the list was parenthesised
@@ -85,6 +85,13 @@ def arrangements(draw):
         pool = [X, Y, ["op", ">>", [X, ["int", w, c]]], ["op", "<<", [X, ["int", w, c]]], ["int", w, full >> c], ["int", w, (full << c) & full], ["int", w, (1 << c) - 1],
                 ["int", w, 0], ["int", w, full], ["op", "-", [X]], ["op", "^", [X, Y]], ["op", ">>", [Y, ["int", w, c]]], ["int", w, 1], ["op", "&", [X, ["int", w, full >> c]]]]
         ops = [draw(st.sampled_from(pool)) for _ in range(draw(st.integers(3, 4)))]
+    elif mode == "repeats":
+        # a multiset with repeated terms, their inverses and small multiples: rules that combine equal operands (A+A, A^A, A+(-A), A*k+A)
+        # see other partners under other bracketings (seed C13-r8-2: (a+a)+(-a) vs a+(a+(-a)))
+        X, Y = ["id", "x%d" % w, w], ["id", "y%d" % w, w]
+        k = draw(st.sampled_from([2, 3, (1 << w) - 1]))
+        pool = [X, X, X, ["op", "-", [X]], Y, Y, ["op", "-", [Y]], ["op", "*", [X, ["int", w, k]]], ["int", w, 1], ["op", "+", [X, Y]], ["op", "^", [X, Y]]]
+        ops = [draw(st.sampled_from(pool)) for _ in range(draw(st.integers(3, 5)))]
     elif mode == "flattening":
         # two operands that differ only in where a nested variadic node ends: f(g(p, q), r, t) and f(g(p, q, r), t)
         f, g = draw(st.sampled_from([(a, b) for a in exprgen.ASSOC for b in exprgen.ASSOC if a != b]))
@@ -160,6 +167,46 @@ def differing_pair(case):
                     return "mem_differing_in_segment"
                 return "%s/%s" % tuple(sorted([kinds_of(a), kinds_of(b)]))
     return "multi"
+
+
+
+def chain(x, n, variant):
+    """a spine of n levels above the leaf x that no rewrite rule collapses; two chains over different leaves are equal down to depth n"""
+    for i in range(n):
+        v = (variant + i) % 4 if variant >= 4 else variant
+        if v == 0:
+            x = ["op", "^", [["op", "+", [x, ["int", 32, 1]]], ["int", 32, 0x55]]]
+        elif v == 1:
+            x = ["mem", ["op", "+", [x, ["int", 32, 4]]], 32, None]
+        elif v == 2:
+            x = ["cond", ["id", "p1", 1], x, ["id", "q32", 32]]
+        else:
+            x = ["compose", [[["slice", x, 8, 24], 0, 16], [["id", "h16", 16], 16, 32]]]
+    return x
+
+
+def deep_twins():
+    """operand pairs that differ only in a leaf far below the operator: the canonical order has to look all the way down (a key that is cut at
+    some depth, or replaced by a hash there, orders them by accident - seed C13-r8-3)"""
+    out = []
+    for n in (1, 2, 3, 4, 6, 9, 13):
+        for variant in (0, 1, 2, 3, 4, 5):
+            for na, nb in (("a", "b"), ("src", "dst"), ("eax", "ebx"), ("zf_1", "loc_8")):
+                x, y = chain(["id", na, 32], n, variant), chain(["id", nb, 32], n, variant)
+                for op in ("&", "|", "+", "^", "*"):
+                    out.append({"op": op, "a": ["op", op, [x, y]], "b": ["op", op, [y, x]], "operands": [x, y], "ctx": "top", "depth": n})
+    return out
+
+
+def w_twins(run, st_, k, cases):
+    for case in cases:
+        st_.ev()
+        st_.klass("order_deep_twins_depth_%d" % case["depth"])
+        r = order_oracle(case)
+        if r is None:
+            st_.nt(("t", case["depth"], sshow(case["a"])[:200]))
+        else:
+            st_.fail(r[0], r[1], {"order": case})
 
 
 # ---- hash-seed matrix -------------------------------------------------------------
@@ -301,6 +348,9 @@ def corpus(run):
             items.append({"t": "simp", "s": ["op", op, ids]})
             items.append({"t": "simp", "s": ["op", op, ids[::-1]]})
             items.append({"t": "simp", "s": ["op", op, [["op", op, ids[:n // 2]], ["op", op, ids[n // 2:]]]]})
+    for c in deep_twins():
+        if c["op"] in ("&", "+"):
+            items.append({"t": "simp", "s": c["a"]})
     cs = x86space.cases("quick", run.seed, thin=run.pick(40, 4)) + x86space.control_flow_cases()[::7] + x86space.x87_cases()[::5]
     items += [{"t": "dis", "b": b.hex()} for b in cs]
     items += emul_corpus(run.pick(60, 600), run.seed)
@@ -322,6 +372,7 @@ def main(run):
     runner.pmap(run, w_idem, [run.pick(400, 8000)] * 16)
     runner.pmap(run, w_idem_rules, [run.pick(400, 8000)] * 16)
     runner.pmap(run, w_order, [run.pick(700, 12000)] * 16)
+    runner.pmap(run, w_twins, runner.chunks(deep_twins(), 64))
     items = corpus(run)
     seeds = ["0", "1", "2", "3", "4", "17", "12345", "random"]
     ref = hash_matrix(run, items, seeds)
